@@ -25,6 +25,19 @@ type c24Op struct {
 	K  string `json:"k"`            // write | flush | recv | rel
 	N  int    `json:"n,omitempty"`  // write: number of objects
 	FC bool   `json:"fc,omitempty"` // write: pass a flush channel
+	// write: how the argument slice is laid out in memory (the queue keeps the
+	// caller's slice until the batch is merged, so aliasing between the
+	// arguments of pending writes must not matter):
+	// 0 fresh slice, len == cap; 1 fresh slice with X spare elements of capacity;
+	// 2 sub-slice of a backing array shared by all layout-2 writes, chunks in
+	// scenario order (a writer's consecutive writes continue each other, other
+	// writers' chunks interleave); 3 sub-slice of a second shared array, chunks
+	// placed in the PRNG-drawn order S. For 2 and 3, X=0: capacity runs to the end
+	// of the array (the spare capacity is the payload of other pending writes),
+	// X=1: capacity covers exactly the next chunk.
+	L int `json:"l,omitempty"`
+	S int `json:"s,omitempty"`
+	X int `json:"x,omitempty"`
 }
 
 type c24Scenario struct {
@@ -54,7 +67,16 @@ func c24Gen(r *core.Rand, tier string) any {
 			if r.Bool(0.05) {
 				k = 0
 			}
-			l = append(l, c24Op{T: fmt.Sprintf("w%d", w), K: "write", N: k, FC: r.Bool(0.45)})
+			op := c24Op{T: fmt.Sprintf("w%d", w), K: "write", N: k, FC: r.Bool(0.45)}
+			switch op.L = r.Weighted([]int{25, 15, 30, 30}); op.L {
+			case 1:
+				op.X = r.Range(1, 8)
+			case 2:
+				op.X = r.Intn(2)
+			case 3:
+				op.S, op.X = r.Intn(1000), r.Intn(2)
+			}
+			l = append(l, op)
 		}
 		total += len(l)
 		per = append(per, l)
@@ -99,7 +121,7 @@ func c24Gen(r *core.Rand, tier string) any {
 type c24Write struct {
 	id       int
 	task     string
-	objs     []int64
+	objs     []int64 // the identities written (private copy, never handed to the queue)
 	fc       queue.FlushChannel
 	seq      int64
 	returned bool
@@ -148,15 +170,53 @@ func c24Run(c *core.Ctx, raw json.RawMessage) {
 	stop := make(chan struct{})
 	nextID := 0
 
-	perTask := map[string][]c24Op{}
+	// argument-slice layout: chunk offsets in the two shared backing arrays
+	type chunk struct{ off, cp int }
+	chunks := map[int]chunk{} // index in sc.Ops -> placement
+	var arenas [2][]int64
+	for a, L := range []int{2, 3} {
+		var idx []int
+		for i, op := range sc.Ops {
+			if op.K == "write" && op.L == L {
+				idx = append(idx, i)
+			}
+		}
+		if L == 3 {
+			sort.SliceStable(idx, func(x, y int) bool { return sc.Ops[idx[x]].S < sc.Ops[idx[y]].S })
+		}
+		off := 0
+		for k, i := range idx {
+			n := sc.Ops[i].N
+			cp := -1 // to the end of the array
+			if sc.Ops[i].X == 1 && k+1 < len(idx) {
+				cp = off + n + sc.Ops[idx[k+1]].N
+			}
+			chunks[i] = chunk{off, cp}
+			off += n
+		}
+		arenas[a] = make([]int64, off)
+		for i := range idx {
+			c := chunks[idx[i]]
+			if c.cp < 0 {
+				c.cp = off
+			}
+			chunks[idx[i]] = c
+		}
+	}
+	type c24TOp struct {
+		c24Op
+		at int // index in sc.Ops
+	}
+	perTask := map[string][]c24TOp{}
 	var order []string
-	for _, op := range sc.Ops {
+	for i, op := range sc.Ops {
 		if _, ok := perTask[op.T]; !ok {
 			order = append(order, op.T)
 		}
-		perTask[op.T] = append(perTask[op.T], op)
+		perTask[op.T] = append(perTask[op.T], c24TOp{op, i})
 	}
 	sort.Strings(order)
+	aliased := 0
 
 	var producers []*sched.Task
 	for _, name := range order {
@@ -182,14 +242,27 @@ func c24Run(c *core.Ctx, raw json.RawMessage) {
 						w.fc = make(queue.FlushChannel)
 					}
 					writes = append(writes, w)
+					// the slice handed to the queue
+					var arg []int64
+					switch op.L {
+					case 1:
+						arg = make([]int64, op.N, op.N+op.X)
+					case 2, 3:
+						ch := chunks[op.at]
+						arg = arenas[op.L-2][ch.off : ch.off+op.N : ch.cp]
+						aliased++
+					default:
+						arg = make([]int64, op.N)
+					}
+					copy(arg, w.objs)
 					mu.Unlock()
 					t.Yield("h.write")
 					t.Doing = "write"
-					seq, err := q.Write(w.objs, w.fc)
+					seq, err := q.Write(arg, w.fc)
 					mu.Lock()
 					w.seq, w.err, w.returned = seq, err, true
 					mu.Unlock()
-					s.Logf("  %s write#%d n=%d fc=%v -> seq+%d err=%v", tn, w.id, op.N, op.FC, seq-seq0, err)
+					s.Logf("  %s write#%d n=%d fc=%v layout=%d cap=%d -> seq+%d err=%v", tn, w.id, op.N, op.FC, op.L, cap(arg), seq-seq0, err)
 				case "flush":
 					t.Yield("h.flush")
 					t.Doing = "flush"
@@ -534,6 +607,7 @@ func c24Run(c *core.Ctx, raw json.RawMessage) {
 		}
 	}
 	c.ProbeN("writes", len(ws))
+	c.ProbeN("writes_with_argument_aliasing_other_writes", aliased)
 	c.ProbeN("batches", len(batches))
 	c.ProbeN("batches_full", sizeFlush)
 	c.ProbeN("batches_partial_timer_or_flush", partial)
